@@ -291,3 +291,58 @@ Theorem C10_udf_counts_after_every_history ops :
   nf = Z.of_nat (ul_count_files (ul_run ops)) /\ nd = Z.of_nat (ul_count_dirs (ul_run ops)).
 Proof. exact (udf_counts_history ops). Qed.
 End UdfLayoutStatements.
+
+(* ---- opening a UDF image: Model/UdfParse.v (pycdlib's OWN parser of the UDF tree, _walk_udf_directories / _parse_udf_file_entry, on the recorded summaries of Model/UdfLayout.v).  For EVERY well-formed tree: the opened object IS the graph the writer had, nothing valid is rejected, laying the opened tree out again gives the same layout; every name gets a File Entry object of its own, and two names share an Inode iff they name the same content: *)
+From PV.Base Require Prim.
+From PV.Gen Require GenFun.
+From PV.Model Require Codec Fid UdfDir UdfLayout UdfParse.
+From PV.Proofs Require UdfLayoutBfsProofs UdfLayoutViewProofs UdfLayoutFactsProofs UdfLayoutWalkProofs UdfParseTableProofs UdfParseWalkProofs UdfParseKeysProofs UdfParseProofs UdfParseShapeProofs UdfParseSharesProofs UdfParseRelabelProofs UdfParseReopenProofs.
+Section UdfParseStatements.
+Import PV.Base.Prim PV.Gen.GenFun PV.Model.Codec PV.Model.Fid PV.Model.UdfDir PV.Model.UdfLayout PV.Model.UdfParse PV.Proofs.UdfLayoutBfsProofs PV.Proofs.UdfLayoutViewProofs PV.Proofs.UdfLayoutFactsProofs PV.Proofs.UdfLayoutWalkProofs PV.Proofs.UdfParseTableProofs PV.Proofs.UdfParseWalkProofs PV.Proofs.UdfParseKeysProofs PV.Proofs.UdfParseProofs PV.Proofs.UdfParseShapeProofs PV.Proofs.UdfParseSharesProofs PV.Proofs.UdfParseRelabelProofs PV.Proofs.UdfParseReopenProofs.
+Local Open Scope Z_scope.
+Theorem C10_udf_open_gives_the_writers_graph s t fuel : wf_utree t = true -> 0 <= s -> (ul_count_dirs t <= fuel)%nat ->
+  udf_parse s fuel (view (udf_layout s t)) (fst (view (udf_layout s t))) = POk (ugraph_of (udf_layout s t)).
+Proof. first [exact (@udf_parse_layout) | apply (@udf_parse_layout) | intros; eapply (@udf_parse_layout); eassumption]. Qed.
+
+Theorem C10_udf_open_rejects_nothing_valid s t fuel : wf_utree t = true -> 0 <= s -> (ul_count_dirs t <= fuel)%nat ->
+  (forall n, udf_parse s fuel (view (udf_layout s t)) 2 <> PInvalid n) /\
+  (forall n, udf_parse s fuel (view (udf_layout s t)) 2 <> PUnsupported n) /\
+  udf_parse s fuel (view (udf_layout s t)) 2 <> PFuel.
+Proof. first [exact (@udf_parse_rejects_nothing_valid) | apply (@udf_parse_rejects_nothing_valid) | intros; eapply (@udf_parse_rejects_nothing_valid); eassumption]. Qed.
+
+Theorem C10_udf_open_result_is_the_writers_graph s t fuel g : wf_utree t = true -> 0 <= s -> (ul_count_dirs t <= fuel)%nat ->
+  udf_parse s fuel (view (udf_layout s t)) 2 = POk g -> g = ugraph_of (udf_layout s t).
+Proof. first [exact (@udf_parse_is_writer_graph) | apply (@udf_parse_is_writer_graph) | intros; eapply (@udf_parse_is_writer_graph); eassumption]. Qed.
+
+Theorem C10_udf_open_empty_file_with_iso_name_refuted :
+  exists g, up_mixed_parse 0 [] (fun _ => [mk_pinode None 0 0 []]) = POk g /\
+            length (g_inodes g) = 2%nat /\ map pi_links (g_inodes g) = [[]; [1%nat]].
+Proof. first [exact (@udf_parse_shares_mixed_empty_refuted) | apply (@udf_parse_shares_mixed_empty_refuted) | intros; eapply (@udf_parse_shares_mixed_empty_refuted); eassumption]. Qed.
+
+Theorem C10_udf_open_shares_inode_iff_same_extent s t k1 k2 r1 r2 j1 j2 n1 l1 i1 n2 l2 i2 : wf_utree t = true -> 0 <= s ->
+  let lo := udf_layout s t in
+  nth_error (lo_dirs lo) k1 = Some r1 -> nth_error (lo_dirs lo) k2 = Some r2 ->
+  nth_error (dr_node r1) j1 = Some (UFile n1 l1 i1) -> nth_error (dr_node r2) j2 = Some (UFile n2 l2 i2) ->
+  (i1 = i2 <-> ug_key lo i1 l1 = ug_key lo i2 l2).
+Proof. first [exact (@udf_parse_shares_extent) | apply (@udf_parse_shares_extent) | intros; eapply (@udf_parse_shares_extent); eassumption]. Qed.
+
+Theorem C10_udf_reopen_layout_fixpoint s t fuel : wf_utree t = true -> 0 <= s -> (ul_count_dirs t <= fuel)%nat ->
+  exists g t',
+    udf_parse s fuel (view (udf_layout s t)) 2 = POk g /\
+    utree_of_graph (S (ul_depth t)) g = Some t' /\
+    let lo := udf_layout s t in let lo' := udf_layout s t' in
+    view lo' = view lo /\ lo_ps lo' = lo_ps lo /\ lo_udf_end lo' = lo_udf_end lo /\ lo_end lo' = lo_end lo /\
+    lo_part_length lo' = lo_part_length lo /\ lo_num_files lo' = lo_num_files lo /\ lo_num_dirs lo' = lo_num_dirs lo /\
+    lo_unique_id lo' = lo_unique_id lo /\
+    map (fun x => (snd (fst x), snd x)) (lo_fes lo') = map (fun x => (snd (fst x), snd x)) (lo_fes lo) /\
+    map (fun x => (snd (fst x), snd x)) (lo_data lo') = map (fun x => (snd (fst x), snd x)) (lo_data lo) /\
+    map dr_fe (lo_dirs lo') = map dr_fe (lo_dirs lo).
+Proof. first [exact (@udf_reopen_layout_fixpoint) | apply (@udf_reopen_layout_fixpoint) | intros; eapply (@udf_reopen_layout_fixpoint); eassumption]. Qed.
+
+End UdfParseStatements.
+Section UdfParseSectionedStatements.
+Import PV.Model.UdfLayout PV.Model.UdfParse PV.Proofs.UdfParseSharesProofs.
+Theorem C10_udf_open_file_entry_objects_never_shared : forall (ps : Z) (iso : iso_side) (t : utree), wf_utree t = true ->
+  NoDup (up_all_objs (ugraph_of (udf_layout_iso ps iso t))) /\ ~ In 0%nat (up_all_objs (ugraph_of (udf_layout_iso ps iso t))).
+Proof. exact UdfParseSharesProofs.udf_parse_fe_never_shared. Qed.
+End UdfParseSectionedStatements.
